@@ -503,7 +503,7 @@ let replay_all (z0 : sys2) (evs : (int * string) list) : string =
           else (match run_from.(i + 1) with Some n -> Some (n + 1) | None -> None))
        else Some 0)
   done;
-  deadline := Sys.time () +. (match Sys.getenv_opt "VERIF_REPLAY_BUDGET" with Some x -> float_of_string x | None -> 150.0);
+  deadline := Sys.time () +. (match Sys.getenv_opt "VERIF_REPLAY_BUDGET" with Some x -> float_of_string x | None -> 60.0);
   (try
      let pending_open = ref None in
      List.iteri (fun pos (i, e) ->
